@@ -35,6 +35,9 @@ CHECKS = {
  "C18": dict(cat="model_checking", eng="e4", tech="exhaustive enumeration of histories x environment answers (every chunk size, a short count / Interrupted at every transfer index, real file, buffer sizes, versions) with byte-identity oracle",
    text="Every history of a bounded set (all op sequences to depth 2-3 over a content alphabet with a nested storage, plus the growth seeds) is run plain, again, on a real file through cfb::create / open_rw / open, with all transfers chunked to c bytes for each c in the list, with Interrupted on every 2nd/3rd/5th transfer, with one 1-byte short count and one Interrupted at every transfer index k, for each max_buffer_size and in the other version. Results and final images must be byte-identical (logical dumps for buffer size and version).",
    note="Timestamps are pinned via the public setters. Short counts on a real file are modelled by the chunking backend, not provoked from the OS.", ref="4 E4"),
+ "C14": dict(cat="model_checking", eng="e6", tech="stateless model checking of real threads under a controlled scheduler at lock granularity: DFS over choice sequences with iterated preemption bound, two RwLock priority policies",
+   text="Real threads run the real read-only methods and stream I/O one at a time under a scheduler that makes every acquisition request of the crate's single RwLock (cfg(cfb_verif) shim) a scheduling point and owns a model of the lock under a reader-preferring and a writer-preferring policy (std leaves the policy unspecified; Linux's is writer-preferring). For every driver configuration (writer handle-op sequence x reader assignment of 1-3 threads x policy) all schedules are explored depth-first, unbounded where that completes within the cap, otherwise up to the reported preemption bound. Oracles: no deadlock, no panic, each reader result equals the sequential result after a whole number of writer handle calls within the call's window (sequential results computed by running the real code single-threaded).",
+   note="Sufficient because all shared state is behind the one lock (no atomics besides Arc counts). Larger configurations are complete only up to the preemption bound recorded in the evidence.", ref="4 E6, 5"),
 }
 
 NOT_YET = {
@@ -69,6 +72,7 @@ def main():
             "add_only": True,
         },
         "engines": [
+            {"name": "e6", "path": "/verif/harness/src/e6.rs", "serves_properties": ["C14"], "kind_free_text": "controlled scheduler (baton passing) over the instrumented RwLock; preemption-bounded DFS of schedules"},
             {"name": "e4", "path": "/verif/harness/src/e4.rs", "serves_properties": ["C12", "C13", "C18"], "kind_free_text": "fault / short-count / interruption enumeration at every underlying call index on the generic backend"},
             {"name": "e3", "path": "/verif/harness/src/e3.rs", "serves_properties": ["C06"], "kind_free_text": "exhaustive call-sequence enumeration on one stream handle"},
             {"name": "e1", "path": "/verif/harness/src/e1.rs", "serves_properties": ["C01", "C02", "C03", "C08", "C10", "C15"], "kind_free_text": "explicit-state BFS over byte images + exhaustive op-sequence enumeration on the real code"},
